@@ -39,6 +39,7 @@ import (
 //	headEvent  controller.HandleHeadEvent on the head-event subscription's
 //	           goroutine: VerifySyncCommitteeMessages -> GetDataUsedForSlot(slot-1),
 //	           then RemoveHistoricDataUsedForSlotVerification(slot).
+//
 // scmCrashSig: on a tree where the slot records are read without the lock the
 // overlap of a head event with a message job can abort the process (Go's
 // "concurrent map read and map write").  While that is a listed open finding
@@ -300,7 +301,7 @@ func (w *scmWorld) run(rep int, _ int, _ *Role, op *Op) {
 	}
 }
 
-func (w *scmWorld) finish(int) string       { return "" }
+func (w *scmWorld) finish(int) string      { return "" }
 func (w *scmWorld) judge(ev.TB, *Scenario) {}
 func (w *scmWorld) close()                 {}
 
